@@ -22,7 +22,9 @@ RULE = ('Recordings of operations over categories {A, AB, A_B, B, BA} (prefixes 
         'same for every permutation of the id list. Non-trivial: >= 2 categories in prefix relation with >= 1 recording '
         'each, or >= 1 failing tuner. Distinct = distinct case.')
 ASSUMPTIONS = ['one recorder is shared by all categories (as the studio requires); generators are advanced one item at '
-               'a time, so replays never overlap']
+               'a time, so replays never overlap',
+               'selections are sequences (list or tuple) as documented (":type recording_ids: list of str"); one-shot '
+               'iterators, which the constructor neither documents nor rejects, are not generated']
 
 CATS = ['A', 'AB', 'A_B', 'B', 'BA']
 _mod = types.ModuleType('pbt.c19_classes')
@@ -114,7 +116,8 @@ def run_case(ctx, case):
             del journal[:]
             cfg = CompareExecutionConfig(compare_in_dedicated_process=True, compare_process_timeout=8) \
                 if case.get('dedicated') else None
-            studio = PlaybackStudio(categories, Tuner(), rec, recording_ids=ids,
+            conv = tuple if case.get('container') == 'tuple' else list
+            studio = PlaybackStudio(conv(categories), Tuner(), rec, recording_ids=None if ids is None else conv(ids),
                                     lookup_properties=RecordingLookupProperties(start_date=None),
                                     compare_execution_config=cfg)
             result = studio.play()
@@ -221,7 +224,8 @@ def cases(draw):
     case = {'cassette': draw(st.sampled_from(['memory', 'memory', 'file', 's3', 's3p'])), 'recordings': recs,
             'mode': mode, 'failing': draw(st.lists(st.sampled_from(CATS), max_size=2, unique=True)),
             'order': draw(st.lists(st.integers(0, 5), min_size=1, max_size=6)),
-            'dedicated': draw(st.sampled_from([False] * 9 + [True]))}
+            'dedicated': draw(st.sampled_from([False] * 9 + [True])),
+            'container': draw(st.sampled_from(['list', 'list', 'tuple']))}
     if mode == 'explicit':
         case['pick'] = draw(st.lists(st.integers(0, 20), min_size=1, max_size=8))
         case['perm'] = draw(st.lists(st.integers(0, 9), min_size=1, max_size=8))
